@@ -75,12 +75,11 @@ template <class P> struct S {
             { UV u(V3(g(), g(), g())); Rot Ra(a1, u); ++evals;
               M33 ux = crossMat(V3(u)); M33 rod = M33(1) + std::sin(a1) * ux + (1 - std::cos(a1)) * (ux * ux);
               if (!(ortho(Ra) <= tight) || !((Ra.asMat33() - rod).norm() <= tight)) fail("angle-axis:not-rodrigues", "angle %a axis %a %a %a", (double)a1, (double)u[0], (double)u[1], (double)u[2]); }
-            // one axis / two axes (second vector random, or exactly/very nearly parallel so that the one-axis fallback is taken;
-            // the badly conditioned band just above the fallback threshold is probed separately in conditioning())
-            { UV u(V3(g(), g(), g())); V3 v(g(), g(), g()); if (t % 4 == 0) v = V3(u) * g() + V3(P(1e-6 * G()), P(1e-6 * G()), P(1e-6 * G())); if (t % 16 == 0) v = V3(0);
+            // one axis / two axes (second vector random, nearly parallel (band just above the one-axis fallback threshold: regression
+            // for the defect fixed by f480eb94, must be proper at the precision), or so nearly parallel / zero that the fallback is taken)
+            { UV u(V3(g(), g(), g())); V3 v(g(), g(), g()); if (t % 4 == 0) v = V3(u) * g() + V3(P(1e-6 * G()), P(1e-6 * G()), P(1e-6 * G())); if (t % 4 == 2) v = V3(u) * g() + V3(P(1e-3 * G()), P(1e-3 * G()), P(1e-3 * G())); if (t % 16 == 0) v = V3(0);
               P sth = (V3(u) % v).norm() / std::max<P>(v.norm(), P(1e-30));
               int i = t % 3, j = (t / 3) % 3; Rot R2(u, ax[i], v, ax[j]); Rot R1(u, ax[i]); evals += 2;
-              if (!(sth > P(1.5e-4) && sth < P(5e-2)))
               if (!(ortho(R2) <= tight) || !((V3(R2(ax[i])) - V3(u)).norm() <= tight)) fail("two-axes:not-proper", "axes %d %d u %a %a %a v %a %a %a err %g", i, j, (double)u[0], (double)u[1], (double)u[2], (double)v[0], (double)v[1], (double)v[2], (double)ortho(R2));
               if (i != j && sth > P(5e-2) && !(dot(V3(R2(ax[j])), v) > 0)) fail("two-axes:second-axis-not-towards-v", "axes %d %d", i, j);
               if (!(ortho(R1) <= tight) || !((V3(R1(ax[i])) - V3(u)).norm() <= tight)) fail("one-axis:not-proper", "axis %d u %a %a %a", i, (double)u[0], (double)u[1], (double)u[2]); }
@@ -103,7 +102,8 @@ template <class P> struct S {
         }
     }
 };
-// deterministic probe (independent of the seed): second vector at a small angle to the first, above the fallback threshold
+// deterministic regression probe (independent of the seed) for the defect fixed by f480eb94: second vector at a small angle to the
+// first, above the fallback threshold; the result must be orthogonal to 200 eps of the precision
 template <class P> static void conditioning() {
     typedef Vec<3,P> V3; typedef UnitVec<P,1> UV; typedef Rotation_<P> Rot;
     UV u(V3(P(0.3), P(-0.5), P(0.8))); V3 w = V3(UV(V3(P(0.7), P(0.2), P(-0.4)) % V3(u)));
